@@ -32,6 +32,11 @@ RULE = ('Every release protocol of the README (30) x every core packet that '
         'gives the same values and consumes exactly, and once per (release, '
         'packet): (c) the id->class dict of the real reactor selects the '
         'class (clientbound) / get_id gives the table id (serverbound).  '
+        'Additionally, for each \'absent\' table entry (play Set '
+        'Compression from 1.9 on, Teleport Confirm in 1.8, login plugin '
+        'request/response before 1.13): (d) the mapped class is in no '
+        'entry of the reactor\'s id->class dict (clientbound) / not in '
+        'the serverbound get_packets set of that state.  '
         'Vectors are de-duplicated, so all cases are distinct by '
         'construction; a case is non-trivial when the packet has a field.  '
         'The seed adds members to the alphabets and permutes order.')
@@ -513,6 +518,57 @@ def check_ids(ctx, version, name):
     return True
 
 
+def check_absent(ctx, version, name):
+    """(d): a packet documented not to exist in this release must not be in
+    the table of its state: a clientbound class registered under any id would
+    decode some other packet's frames as this one."""
+    from minecraft.networking import connection as C
+    from minecraft.networking.packets import clientbound, serverbound
+    direction, state, clsname, _ = PY[name]
+    case = {'version': version, 'name': name, 'kind': 'absent',
+            'values': None}
+    ctx.count()
+    try:
+        cls = py_class(name)
+        context = py_context(version)
+        if direction == 'clientbound':
+            R = {'status': C.StatusReactor, 'login': C.LoginReactor,
+                 'play': C.PlayingReactor}[state]
+            table = R(_Conn(context)).clientbound_packets
+            at = sorted(i for i, c in table.items() if c is cls)
+            listed = cls in getattr(clientbound, state).get_packets(context)
+            if at or listed:
+                ctx.outcome('absent packet PRESENT')
+                ctx.violation(
+                    'present v=%d %s' % (version, name),
+                    'protocol %d: %s does not exist in this release, but '
+                    '%s registers %s under %s, so a frame with that id - '
+                    'another packet in this release - is decoded as %s'
+                    % (version, name, R.__name__, clsname,
+                       ['0x%02X' % i for i in at] or 'get_packets', name),
+                    case)
+                return False
+        else:
+            if cls in getattr(serverbound, state).get_packets(context):
+                ctx.outcome('absent packet PRESENT')
+                ctx.violation(
+                    'present v=%d %s' % (version, name),
+                    'protocol %d: %s does not exist in this release, but %s '
+                    'is in serverbound.%s.get_packets'
+                    % (version, name, clsname, state), case)
+                return False
+        ctx.outcome('absent packet not registered')
+    except ToolError:
+        raise
+    except Exception as e:
+        ctx.outcome('absent check RAISED')
+        ctx.violation('absent-raises v=%d %s' % (version, name),
+                      'protocol %d %s: building the table raised %r'
+                      % (version, name, e), case)
+        return False
+    return True
+
+
 def check_case(ctx, version, name, values):
     """(a) and (b) for one value vector.  True when both agree."""
     from minecraft.networking.packets import PacketBuffer
@@ -666,6 +722,11 @@ def worker(ctx, version):
     alph = build_alphabets(ctx.tier, ctx.seed)
     names = sorted(rel.ids(version))
     random.Random(ctx.seed * 31 + version).shuffle(names)
+    for name in rel.absent(version):
+        check_absent(ctx, version, name)
+        ctx.cls('absent entry %s' % name)
+        ctx.extra['absent_entries_judged'] = \
+            ctx.extra.get('absent_entries_judged', 0) + 1
     for name in names:
         if name not in PY:
             raise ToolError('no pyCraft mapping for %s' % name)
@@ -686,6 +747,9 @@ def worker(ctx, version):
 
 
 REQUIRED_CLASSES = [
+    'absent entry play.set_compression', 'absent entry login.plugin_request',
+    'absent entry sb.play.teleport_confirm',
+    'absent entry sb.login.plugin_response',
     'string with non-ASCII (bytes != chars)',
     'string with multi-byte length prefix',
     'VarInt negative on the wire (5 bytes)',
@@ -746,6 +810,13 @@ def run(ctx):
     missing = [c for c in REQUIRED_CLASSES if not ctx.classes.get(c)]
     if missing:
         raise ToolError('vacuous: classes never exercised: %r' % missing)
+    if ctx.extra.get('absent_entries_judged') != sum(
+            len(rel.absent(v)) for v in rel.RELEASES):
+        raise ToolError('not every absent entry was judged')
+    ctx.extra['absent_entries'] = [
+        'play.set_compression: absent from every release >= 107',
+        'sb.play.teleport_confirm: absent at 47',
+        'login.plugin_request, sb.login.plugin_response: absent at 47..340']
     if ctx.extra.get('packets_judged') != sum(
             len(rel.ids(v)) for v in rel.RELEASES):
         raise ToolError('not every (release, packet) pair was judged')
@@ -754,6 +825,9 @@ def run(ctx):
 def replay(ctx, case):
     use_repo()
     version, name = case['version'], case['name']
+    if case.get('kind') == 'absent':
+        check_absent(ctx, version, name)
+        return
     check_ids(ctx, version, name)
     if case.get('values') is not None:
         values = dict(case['values'])
